@@ -144,8 +144,12 @@ func WellFormed(kind Kind, b []byte) error {
 		// tolerates tags, and the CBOR library looks through tags when it decodes
 		// into typed values. The property only forbids tags inside envelopes, so the
 		// rules are applied to the tree with every tag wrapper removed.
+		// (duplicates are judged on the tree as written: a tagged key is a different key)
+		if refcbor.AnyDupKeys(n) {
+			return errors.New("duplicate key in unprotected header")
+		}
 		n = StripTags(n)
-		if err := unprotectedMap(n); err != nil {
+		if err := unprotectedMapNoDup(n); err != nil {
 			return err
 		}
 		if err := HeaderRulesWire(nil, n, false, true); err != nil {
@@ -267,16 +271,20 @@ func protectedMap(p *Node) (*Node, error) {
 }
 
 func unprotectedMap(u *Node) error {
-	if u.Major != refcbor.Map {
-		return errors.New("unprotected is not a map")
-	}
-	if err := labels(u); err != nil {
+	if err := unprotectedMapNoDup(u); err != nil {
 		return err
 	}
 	if refcbor.AnyDupKeys(u) {
 		return errors.New("duplicate key in unprotected header")
 	}
 	return nil
+}
+
+func unprotectedMapNoDup(u *Node) error {
+	if u.Major != refcbor.Map {
+		return errors.New("unprotected is not a map")
+	}
+	return labels(u)
 }
 
 func labels(m *Node) error {
